@@ -64,6 +64,9 @@ def witness_search(tier, seed):
             for k, v in sm.items():
                 if out.get(k) != v:
                     return dict(input=text, detail=f"property {k} = {out.get(k)!r}, source has {v!r}")
+            t0, t1 = TimingData(sm), TimingData(out)
+            if (t0.bpms, t0.stops, t0.delays, t0.warps, t0.offset) != (t1.bpms, t1.stops, t1.delays, t1.warps, t1.offset):
+                return dict(input=text, detail=f"timing data of the simfile differs: source warps {t0.warps!r}, result warps {t1.warps!r}")
             n0 = len(stt.charts) if stt else 0
             if len(out.charts) != n0 + len(sm.charts):
                 return dict(input=text, detail="chart count differs")
@@ -80,3 +83,8 @@ def witness_search(tier, seed):
 
 from pyvc.xcheck import OrderedDictProbe   # noqa: E402
 THOROUGH_BOUNDED = [OrderedDictProbe()]
+
+
+# supplier units (see props/suppliers.py): "timing data ... as read through the library's own timing readers"
+from props import suppliers as _S   # noqa: E402
+UNITS = _S.extend(UNITS, _S.timing_readers(), [u for u in _S.accessors(("SMSimfile", "SSCSimfile", "SSCChart")) if u.name.endswith(".getter")])
